@@ -3,6 +3,7 @@ package scen
 import (
 	"bytes"
 	"fmt"
+	"syscall"
 
 	"github.com/talostrading/sonic/codec/websocket"
 
@@ -26,6 +27,7 @@ var (
 	c16pAutoPong     = sim.RegStat("probe:c16-automatic-pong-written")
 	c16pOversize     = sim.RegStat("probe:c16-oversize-message-refused")
 	c16pAsync        = sim.RegStat("probe:c16-async-write")
+	c16pTransient    = sim.RegStat("probe:c16-async-write-failed-once-with-a-transient-error")
 	c16pBurst        = sim.RegStat("probe:c16-several-writes-submitted-back-to-back")
 	c16pChain        = sim.RegStat("probe:c16-write-started-from-inside-a-write-completion")
 	c16p64           = sim.RegStat("probe:c16-64-bit-length-written")
@@ -33,6 +35,9 @@ var (
 
 type c16 struct {
 	*wsSess
+	// lossy: one asynchronous write was made to fail with a transient error: its frame may be missing or arrive
+	// later, but everything on the wire is still a well-formed masked frame the caller submitted, in order, once
+	lossy    bool
 	expected []wsFrame
 	max      int
 	lastSize int
@@ -159,6 +164,25 @@ func (d *c16) writeBurst() {
 	}
 }
 
+// writeFailsOnce: the transport fails one asynchronous write with a transient error and stays usable.
+func (d *c16) writeFailsOnce() {
+	if d.mem == nil || d.mem.pw != nil {
+		return
+	}
+	w := d.w
+	w.Stat(c16pTransient)
+	d.lossy = true
+	p := d.payload(w.Pick(10, 0, 200))
+	d.expected = append(d.expected, wsFrame{Fin: true, Opcode: wsBinary, Payload: p})
+	d.mem.wrErrOnce = syscall.ENOBUFS
+	done := false
+	d.ws.AsyncWrite(p, websocket.TypeBinary, func(error) { done = true })
+	if !d.waitFor(&done) {
+		d.c.Failf("async-write-never-completes", "AsyncWrite never completed after a transient transport error")
+	}
+	d.mem.wrErrOnce = nil
+}
+
 func (d *c16) writeFrame(async bool) {
 	c, w := d.c, d.w
 	f := d.ws.AcquireFrame()
@@ -269,6 +293,29 @@ func (d *c16) verify() {
 	if err != nil {
 		c.Failf("wire-does-not-parse", "the client's byte stream does not parse as RFC 6455 frames: %v", err)
 	}
+	if d.lossy {
+		j := 0
+		for i, f := range frames {
+			what := fmt.Sprintf("frame %d on the wire (opcode=%d fin=%v payload=%d bytes)", i, f.Opcode, f.Fin, len(f.Payload))
+			if !f.Masked {
+				c.Failf("frame-not-masked", "%s is not masked", what)
+			}
+			if f.NonMinimal {
+				c.Failf("length-not-minimal", "%s uses a %d-byte extended length", what, f.LenBytes)
+			}
+			for j < len(d.expected) && !(d.expected[j].Opcode == f.Opcode && d.expected[j].Fin == f.Fin && bytes.Equal(d.expected[j].Payload, f.Payload)) {
+				j++
+			}
+			if j >= len(d.expected) {
+				c.Failf("frame-invented-or-repeated-after-transient-error", "%s is not the next of the submitted frames (each at most once, in order)", what)
+			}
+			j++
+		}
+		if len(rest) != 0 {
+			c.Failf("trailing-bytes-on-wire", "the wire holds %d bytes that are not a whole frame (% x...)", len(rest), head4(rest))
+		}
+		return
+	}
 	for i, e := range d.expected {
 		if i >= len(frames) {
 			c.Failf("frame-missing-on-wire", "%d frames were submitted, the wire holds %d whole frames (+%d trailing bytes); missing: opcode %d, %d payload bytes", len(d.expected), len(frames), len(rest), e.Opcode, len(e.Payload))
@@ -340,7 +387,9 @@ func runC16(c *Ctx, variant int) {
 	steps := w.Range(2, c.Deep(12))
 	for i := 0; i < steps; i++ {
 		async := w.Chance(1, 2)
-		switch w.Choose(10) {
+		switch w.Choose(11) {
+		case 10:
+			d.writeFailsOnce()
 		case 9:
 			d.writeBurst()
 		case 8:
